@@ -37,6 +37,12 @@ type Clause struct {
 	Line  int
 }
 
+// Guard: locations protected by a mutex (see `guards`).
+type Guard struct {
+	Mutex *Clause
+	Locs  []*Clause
+}
+
 type LoopContract struct {
 	Invariants []*Clause
 	Decreases  *Clause
@@ -55,6 +61,8 @@ type Contract struct {
 	Except     []*Clause // locations exempt from Preserves (written by the frame-less callee after all)
 	Preserves  []*Clause // locations a frame-less (assigns everything) callee is assumed to leave unchanged
 	Stable     []*Clause // whole-class locations assumed untouched by everything this function calls
+	Guards     []*Guard
+	AtCall     map[string][]*Clause // callee short key -> assertions over the caller's variables, checked at each such call
 	Yields     []*Clause // rely conditions re-assumed after every yield point (select, channel operation)
 	Records    []*Clause // definitional ghost call records: assumed at call sites, not checked in the body
 	Assigns    []*Clause
@@ -436,6 +444,51 @@ func (cs *ContractSet) ParseContractFile(path, pkgPath string) error {
 			for _, p := range splitTop(strings.TrimSpace(rest), ',') {
 				if c := mkClause(l, p); c != nil {
 					cur.Preserves = append(cur.Preserves, c)
+				}
+			}
+		case "guards":
+			// guards <mutex expr> : <locs> - the locations are protected by the mutex: whenever this function acquires it,
+			// they may have been changed by other goroutines since it last held the lock (they are havocked at the
+			// acquisition, the `yields` conditions are re-assumed); atlock(e) evaluates e right after the most recent
+			// exclusive acquisition
+			if cur == nil {
+				errf(l, "guards outside of func")
+				continue
+			}
+			{
+				fs := strings.SplitN(rest, " : ", 2)
+				if len(fs) != 2 {
+					errf(l, "guards <mutex> : <locs>")
+					continue
+				}
+				g := &Guard{Mutex: mkClause(l, strings.TrimSpace(fs[0]))}
+				for _, p := range splitTop(strings.TrimSpace(fs[1]), ',') {
+					if c := mkClause(l, p); c != nil {
+						g.Locs = append(g.Locs, c)
+					}
+				}
+				if g.Mutex != nil {
+					cur.Guards = append(cur.Guards, g)
+				}
+			}
+		case "atcall":
+			// atcall <callee> assert[label] expr : an assertion over the function's own variables that has to hold
+			// whenever the function calls <callee> (short key, as in trustpre)
+			if cur == nil {
+				errf(l, "atcall outside of func")
+				continue
+			}
+			{
+				ws := strings.SplitN(strings.TrimSpace(rest), " ", 2)
+				if len(ws) != 2 || !strings.HasPrefix(strings.TrimSpace(ws[1]), "assert") {
+					errf(l, "atcall <callee> assert[label] expr")
+					continue
+				}
+				if c := mkClause(l, strings.TrimPrefix(strings.TrimSpace(ws[1]), "assert")); c != nil {
+					if cur.AtCall == nil {
+						cur.AtCall = map[string][]*Clause{}
+					}
+					cur.AtCall[ws[0]] = append(cur.AtCall[ws[0]], c)
 				}
 			}
 		case "stable":
